@@ -110,31 +110,37 @@ section NeoxScript
 open KV.Neox KV.NeoxS KV.C12 KV.C11S
 
 /-- **the GPT-NeoX script is well formed** for every topology, every layer list, every bucket
-    capacity and every history of training passes and steps: members are ranks of the world, no
-    collective is entered by a single rank, every broadcast root is a member.  -/
-theorem neox_script_wf (c : NeoxS.Cfg) (hc : NCfgOK c) (ops : List Op) :
+    capacity and every history of training passes, steps and checkpoint saves / loads (in memory or
+    into a directory, into a fresh or into the running preconditioner): members are ranks of the world,
+    no collective is entered by a single rank, every broadcast root is a member.  (The checkpoint calls
+    are not short-circuited for a world of one, hence the hypothesis on histories with checkpoints.) -/
+theorem neox_script_wf (c : NeoxS.Cfg) (hc : NCfgOK c) (ops : List Op)
+    (hw : 2 ≤ c.t.world ∨ ∀ op ∈ ops, op.isCkpt = false) :
     KV.Sched2.wf c.t.world ((run c ops).acts.map toG) = true := by
-  exact run_wf c hc ops
+  exact run_wf c hc ops hw
 
 /-- hence the per-rank programs (projections) satisfy the scheduler invariant: with the generic
     theorems of C03 (`no_deadlock`, `terminal_all_done`, `match_per_group`) no rank ever stalls on
     the GPT-NeoX path under any interleaving, and members of a group issue matching sequences -/
-theorem neox_consistent (c : NeoxS.Cfg) (hc : NCfgOK c) (ops : List Op) :
+theorem neox_consistent (c : NeoxS.Cfg) (hc : NCfgOK c) (ops : List Op)
+    (hw : 2 ≤ c.t.world ∨ ∀ op ∈ ops, op.isCkpt = false) :
     KV.Sched2.SInv (KV.Sched2.eventsOf ((run c ops).acts.map toG)) c.t.world
       (KV.Sched2.initOf ((run c ops).acts.map toG) c.t.world) :=
-  KV.C03.script_consistent _ _ (neox_script_wf c hc ops)
+  KV.C03.script_consistent _ _ (neox_script_wf c hc ops hw)
 
 /-- **group-specific communication**: every collective runs on a model-parallel group, on a
     data-parallel group or on the peers of one pipeline stage, and its kind fits the group:
     gathers/scatters only inside model-parallel groups, all-reduces (factors) only over
     data-parallel groups or stage peers, broadcasts inside a model-parallel group (replicated bias)
-    or a data-parallel group (preconditioned gradient) -/
+    or a data-parallel group (preconditioned gradient); the object gather and the barriers of a
+    checkpoint run on the whole world -/
 theorem neox_groups (c : NeoxS.Cfg) (hc : NCfgOK c) (ops : List Op) (a : NAct) (ha : a ∈ (run c ops).acts) :
     (∃ p d, p < c.t.pp ∧ d < c.t.dp ∧ a.members = modelGroup c p d ∧
         (a.kind = .allgather ∨ a.kind = .reducescatter ∨ a.kind = .broadcast)) ∨
     (∃ p m, p < c.t.pp ∧ m < c.t.mp ∧ a.members = dataGroup c p m ∧
         (a.kind = .allreduce ∨ a.kind = .broadcast)) ∨
-    (∃ p, p < c.t.pp ∧ a.members = c.t.stagePeers p ∧ a.kind = .allreduce) := by
+    (∃ p, p < c.t.pp ∧ a.members = c.t.stagePeers p ∧ a.kind = .allreduce) ∨
+    (a.members = worldGroup c ∧ (a.kind = .gatherobj ∨ a.kind = .barrier)) := by
   exact run_groups c hc ops a ha
 
 /-- **the sharded factor is reduced by exactly the ranks that gathered it**: the data-parallel
@@ -176,12 +182,63 @@ theorem pass_only_gathers (c : NeoxS.Cfg) (s : St)
     ∃ extra, (trainPass c s).acts = s.acts ++ extra ∧ ∀ a ∈ extra, a.kind = .allgather := by
   exact pass_only_gathers_l c s h
 
+/-- **a checkpoint involves every rank**: each object gather / barrier of the script is in the program
+    of every rank of the world (so a rank that skips `state_dict()` or `load_state_dict()`, or returns
+    from it early, breaks the script) -/
+theorem ckpt_every_rank (c : NeoxS.Cfg) (hc : NCfgOK c) (ops : List Op) (a : NAct) (ha : a ∈ (run c ops).acts)
+    (hk : a.kind = .gatherobj ∨ a.kind = .barrier) (r : Nat) (hr : r < c.t.world) :
+    a ∈ project r (run c ops).acts := by
+  exact ckpt_every_rank_l c hc ops a ha hk r hr
+
+/-- **what a checkpoint costs**: `state_dict()` appends exactly one object gather and one barrier
+    (memory) or exactly one barrier (directory); `load_state_dict()` exactly one barrier (memory) or
+    nothing (directory) — whatever the topology, the layers and the state -/
+theorem ckpt_script (c : NeoxS.Cfg) (s : St) (fresh : Bool) :
+    (saveOp c false s).acts = s.acts ++ [⟨worldGroup c, .gatherobj, 1, 0⟩, ⟨worldGroup c, .barrier, 1, 0⟩] ∧
+    (saveOp c true s).acts = s.acts ++ [⟨worldGroup c, .barrier, 1, 0⟩] ∧
+    (loadOp c false fresh s).acts = s.acts ++ [⟨worldGroup c, .barrier, 1, 0⟩] ∧
+    (loadOp c true fresh s).acts = s.acts := by
+  exact ckpt_script_l c s fresh
+
+/-- **save then load restores the step count** (and an in-place roll-back returns to the step count of
+    the last save, however many steps were taken in between) -/
+theorem load_restores_steps (c : NeoxS.Cfg) (s : St) (dir dir' fresh : Bool) (ops : List Op)
+    (h : ∀ op ∈ ops, op.isCkpt = false) :
+    (loadOp c dir' fresh (ops.foldl (apply c) (saveOp c dir s))).steps = s.steps := by
+  exact load_restores_steps_l c s dir dir' fresh ops h
+
+/-- **resuming is transparent for the communication script** (partial): from a state whose communicator
+    is as freshly constructed (always the case without bucketing; with bucketing only before the first
+    factor reduction) and with no micro-batch counted, saving and loading into a fresh preconditioner,
+    then continuing with any history of passes and steps, issues exactly the collectives of the
+    uninterrupted run, preceded by those of the checkpoint itself.
+    Missing for the full statement (any step boundary of a bucketed run): the running communicator keeps
+    its (emptied) buckets in first-use order while a fresh one has none, so the proof needs the invariant
+    that every iteration uses the bucket keys in that same order; the correspondence check compares the
+    resumed scripts of bucketed runs with the model on every run instead. -/
+theorem resume_same_script_partial (c : NeoxS.Cfg) (s : St) (dir : Bool) (ops : List Op)
+    (hb : s.comm = { cap := c.cap, buckets := [] }) (hm : s.mini = 0)
+    (h : ∀ op ∈ ops, op.isCkpt = false) :
+    ∃ ck, (loadOp c dir true (saveOp c dir s)).acts = s.acts ++ ck ∧
+      (ops.foldl (apply c) (loadOp c dir true (saveOp c dir s))).acts =
+        s.acts ++ ck ++ ((ops.foldl (apply c) s).acts.drop s.acts.length) := by
+  exact resume_same_script_partial_l c s dir ops hb hm h
+
 /-- non-vacuity: a 2×2×2 topology with one column/row block per stage meets `NCfgOK` and its script
     is not empty -/
 def demoCfg : NeoxS.Cfg :=
   { t := ⟨2, 2, 2⟩,
     stages := [[⟨"0", .col, 2, 4, true⟩, ⟨"2", .row, 4, 2, true⟩], [⟨"3", .col, 2, 4, true⟩, ⟨"5", .row, 4, 2, false⟩]],
     tokens := 4, fus := 1, ius := 1, bucketed := true, cap := 200, esize := 8, sym := true, cube := true }
+
+example : (run demoCfg [.train, .step, .save false, .load false true, .train, .step]).acts.length =
+    (run demoCfg [.train, .step, .train, .step]).acts.length + 3 := by
+  decide +kernel
+
+/-- the hypotheses of `resume_same_script_partial` hold at every step boundary of an unbucketed run -/
+example : (run { demoCfg with bucketed := false } [.train, .step]).comm = { cap := demoCfg.cap, buckets := [] } ∧
+    (run { demoCfg with bucketed := false } [.train, .step]).mini = 0 := by
+  decide +kernel
 
 example : NCfgOK demoCfg ∧ (run demoCfg [.train, .step]).acts ≠ [] := by
   refine ⟨⟨⟨by decide, by decide, by decide⟩, by decide, ?_⟩, by decide +kernel⟩
